@@ -153,6 +153,60 @@ def rule_allow_incomplete(facts):
     return r
 
 
+def rule_sink_sites(facts):
+    """Without bookkeeping of what was already delivered, the window may hand its bytes to the sink only at the two
+    points where each byte is delivered exactly once: the whole buffer when the cursor wraps, and [0, cursor) in finish."""
+    r = report.RuleResult("C15.R6", "window bytes reach the sink exactly once: whole buffer at the wrap, [0, cursor) at finish")
+    n = 0
+    seen = {"wrap": 0, "finish": 0}
+    for b in facts.bodies:
+        if b.promoted is not None or b.self_ty is None or not (b.self_ty.name or "").endswith("LzCircularBuffer"):
+            continue
+        tm = Terms(b)
+        c = cfg(b)
+        fn = short(b.name)
+        for blk in b.calls():
+            d = flow.declared(blk.term) or ""
+            if not d.endswith(("Write::write_all", "Write::write")) or not blk.term.args:
+                continue
+            if not pat.has_field(tm.of_operand(blk.term.args[0]), "stream"):
+                continue
+            n += 1
+            data = tm.of_operand(blk.term.args[1])
+            where = pat.where(b, blk.idx)
+            if b.item == "append_literal" and pat.has_call(data, "Vec::as_slice") and pat.has_field(data, "buf") and not pat.has_call(data, "index"):
+                # under cursor == dict_size, followed by cursor = 0
+                gs, _ = pat.guards(b)
+                okk = any(pat.cmp_sides(t) and pat.cmp_sides(t)[0] == "Eq" and pat.has_field(t, "cursor") and pat.has_field(t, "dict_size") and
+                          c.dominates(nz, blk.idx) for (_, t, z, nz) in gs)
+                if okk:
+                    seen["wrap"] += 1
+                    r.ok("term", {"fn": fn, "sink write": "whole window at cursor == dict_size"})
+                else:
+                    r.bad("%s|wrap-guard" % fn, "the whole window is written to the sink without the cursor == dict_size test", where)
+            elif b.item == "finish":
+                idx = [q for q in _subterms(data) if q[0] == "call" and q[1].endswith(("::index", "Index::index"))]
+                okk = False
+                if idx:
+                    rng = idx[0][2][1]
+                    if rng[0] == "agg" and rng[1].endswith(("Range::Range", "RangeTo::RangeTo")):
+                        lo = rng[2][0] if len(rng[2]) == 2 else ("const", 0)
+                        hi = rng[2][-1]
+                        okk = lo == ("const", 0) and pat.strip(hi) and pat.strip(hi)[0] == "field" and pat.strip(hi)[1] == "cursor"
+                if okk:
+                    seen["finish"] += 1
+                    r.ok("term", {"fn": fn, "sink write": "buf[0..cursor] at finish"})
+                else:
+                    r.bad("%s|finish-slice" % fn, "finish hands %s to the sink, not buf[0..cursor]: bytes may be lost or delivered twice"
+                          % flow.show(data)[:80], where)
+            else:
+                r.bad("%s|extra-sink-write" % fn, "an additional place writes window bytes to the sink (%s): nothing here tracks what was "
+                      "already delivered, so bytes can reach the sink twice or out of order" % flow.show(data)[:60], where, "unverifiable")
+    r.sites = n
+    r.need("the wrap write and the finish write of the circular window (found %s)" % seen, seen["wrap"] >= 1 and seen["finish"] >= 1)
+    return r
+
+
 def _rename(rr, rule):
     rr.rule = rule
     for f in rr.findings:
@@ -164,7 +218,7 @@ def run(ctx, t0):
     facts = ctx.facts()
     pat.FACTS = facts
     rules = [rule_emitters(facts), _rename(C05.rule_commit(facts), "C15.R2"), _rename(C05.rule_staging(facts), "C15.R3"),
-             _rename(C05.rule_refill(facts), "C15.R4"), _rename(C05.rule_constants(facts), "C15.R4b"), rule_allow_incomplete(facts)]
+             _rename(C05.rule_refill(facts), "C15.R4"), _rename(C05.rule_constants(facts), "C15.R4b"), rule_allow_incomplete(facts), rule_sink_sites(facts)]
     expl = ("Static, structural clauses only: who-may-emit enumeration of the window's append calls with control dependence on the update "
             "flag, the dry-run / commit protocol, provenance of staged slices and positions, refill guards evaluated over all fill levels, "
             "who-reads enumeration of allow_incomplete and control dependence / must-pass-through in Stream::finish. The lag figure and "
